@@ -122,4 +122,49 @@ def astep (H : Bytes → Bytes) (s : AState) : Op → AState × String
   | .spow i none => (asetS s i 1, "")
   | .spow i (some j) => (asetS s i (powMod (agetS s i) (agetS s j) N), "")
 
+/-- everything the API lets one observe about the pools: `Encode`, `IsIdentity` and pairwise `Equal` of the
+elements, `Encode`, `IsZero` and pairwise `Equal` of the scalars -/
+structure Obs where
+  enc : List Bytes
+  isId : List Bool
+  eq : List (List Nat)
+  senc : List Bytes
+  sz : List Bool
+  seq : List (List Nat)
+deriving DecidableEq
+
+def cobs (c : CState) : Obs where
+  enc := c.el.map Hand.ElementL.encode
+  isId := c.el.map (Hand.Element.isIdentity F)
+  eq := c.el.map fun p => c.el.map fun q => Hand.Element.equal F p q
+  senc := c.sc.map Hand.Scalar.encode
+  sz := c.sc.map Hand.Scalar.isZero
+  seq := c.sc.map fun x => c.sc.map fun y => Hand.Scalar.equal x (some y)
+
+def aobs (a : AState) : Obs where
+  enc := a.el.map Spec.encodeCompressed
+  isId := a.el.map fun p => decide (p = none)
+  eq := a.el.map fun p => a.el.map fun q => if p = q then 1 else 0
+  senc := a.sc.map fun v => Spec.i2osp v 32
+  sz := a.sc.map fun v => decide (v = 0)
+  seq := a.sc.map fun v => a.sc.map fun w => if v = w then 1 else 0
+
+/-- run a history, collecting the error tag and the observation after every step -/
+def crun (H : Bytes → Bytes) : CState → List Op → List (String × Obs)
+  | _, [] => []
+  | s, op :: ops => let r := cstep H s op; (r.2, cobs r.1) :: crun H r.1 ops
+def arun (H : Bytes → Bytes) : AState → List Op → List (String × Obs)
+  | _, [] => []
+  | s, op :: ops => let r := astep H s op; (r.2, aobs r.1) :: arun H r.1 ops
+
+/-- the variable an operation writes (everything else must stay as it was) -/
+def Op.recvE : Op → Option Nat
+  | .base i | .identity i | .set i _ | .copy i _ | .add i _ | .dbl i | .neg i | .sub i _ | .mul i _
+  | .dec i _ | .h2g i _ _ | .e2g i _ _ => some i
+  | _ => none
+def Op.recvS : Op → Option Nat
+  | .sadd i _ | .ssub i _ | .smul i _ | .ssq i | .sinv i | .sset i _ | .scopy i _ | .ssetu i _ | .sdec i _
+  | .sone i | .szero i | .sminus i | .h2s i _ _ | .spow i _ => some i
+  | _ => none
+
 end Hand.History
